@@ -337,6 +337,7 @@ class Oracles:
                 self.violate("C16", "non-pallet-from-first-edge", self.nlabel(nr.id), f"{nr.id} took {iid} from its first in-edge; it is not a pallet")
             nr.pallet = life
             life["gathered"] = []
+            life["preloaded"] = [getattr(x, "id", None) for x in (getattr(obj, "items", None) or [])]   # chained combiners
             nr.last_ing_t = t
         nr.held[iid] = life
         nr.life.append(life)
@@ -416,8 +417,9 @@ class Oracles:
         live = [getattr(x, "id", None) for x in obj.items]
         if per != want:
             self.violate("C16", "recipe", self.nlabel(nr.id), f"{nr.id} emitted pallet {iid} with ingredients per in-edge {per}, recipe {want}")
-        if sorted(live) != sorted(x for x, _ in got):
-            self.violate("C16", "pallet-content-vs-history", self.nlabel(nr.id), f"pallet {iid} carries {live}, the combiner took {[x for x, _ in got]} for it")
+        pre = life.get("preloaded", [])
+        if sorted(live) != sorted(pre + [x for x, _ in got]):
+            self.violate("C16", "pallet-content-vs-history", self.nlabel(nr.id), f"pallet {iid} carries {live}; it arrived with {pre} and the combiner took {[x for x, _ in got]} for it")
         for x in live:
             w = self.loc.get(x)
             if w != ("packed", iid):
@@ -743,6 +745,9 @@ class Oracles:
                 if i == 0:
                     continue
                 need = recipe[i] - have.get(i, 0)
+                if need > 0 and len(run.edge_ready(e)) - self.granted_unused(e, "g") > 0:
+                    self.violate("C10", "available-item-not-taken", lab + "," + self.elabel(e),
+                                 f"{nid} still needs {need} item(s) from in-edge {i} at end of instant {now} while that edge offers an unreserved item")
                 if per.get(e, 0) != need and len(set(in_edges)) == len(in_edges):
                     self.violate("C10", "ingredient-requests", lab, f"{nid} still needs {need} item(s) from in-edge {i} for pallet {nr.pallet['item']} but has "
                                  f"{per.get(e, 0)} outstanding retrieval reservation(s) there at end of instant {now}")
